@@ -4,7 +4,6 @@ import (
 	"context"
 	"errors"
 	"fmt"
-	"io"
 	"math/rand"
 	"net"
 	"net/http"
@@ -70,6 +69,9 @@ func (c *countT) Write(p []byte) (int, error) {
 	return c.Transport.Write(p)
 }
 
+// errClosedConn is what a real net.Conn returns once it has been closed locally ("use of closed network connection")
+var errClosedConn error = &net.OpError{Op: "read", Net: "tcp", Err: net.ErrClosed}
+
 // halfOpenConn serves a byte stream in random segments, then stays silent; once the reader waits for more every
 // write fails (the peer is gone but no FIN/RST arrives). Close unblocks the pending read.
 type halfOpenConn struct {
@@ -104,14 +106,14 @@ func (h *halfOpenConn) Read(p []byte) (int, error) {
 	h.dead = true
 	h.mu.Unlock()
 	<-h.closed
-	return 0, io.ErrClosedPipe
+	return 0, errClosedConn
 }
 func (h *halfOpenConn) Write(p []byte) (int, error) {
 	h.mu.Lock()
 	defer h.mu.Unlock()
 	select {
 	case <-h.closed:
-		return 0, io.ErrClosedPipe
+		return 0, errClosedConn
 	default:
 	}
 	if string(p) == "\n" {
